@@ -29,6 +29,11 @@ def make_cases(tier, rng):
     # a serving goroutine gets to close its listener before the process exits is a race, so there are several)
     for l in (["cmd"] if tier == "quick" else ["cmd", "runner", "cmd", "runner"]):
         cases.append({"name": "l%d" % len(cases), "proto": "grpc", "tls": "", "launch": l, "ops": ["broker_h2p"] * 8})
+    # one brokered id used twice in a row (plain gRPC: two listeners under one id are open at the Kill)
+    for p, op in ([("grpc", "broker_p2h_reuse"), ("grpc", "broker_h2p_reuse")] if tier == "quick" else
+                  [(p, op) for p in ["grpc", "grpc", "netrpc"] for op in ["broker_p2h_reuse", "broker_h2p_reuse"]]):
+        cases.append({"name": "l%d" % len(cases), "proto": p, "tls": "", "launch": rng.choice(["cmd", "runner"]), "ops": [op] + [rng.choice(OPS)]})
+    cases.append({"name": "l%d" % len(cases), "proto": "grpc", "tls": "", "launch": "cmd", "ops": ["raw_accept_reuse", "broker_p2h"]})
     # calls whose peer never comes (not with multiplexing, where gRPC keeps re-dialling for a while)
     for p in ["netrpc", "grpc"]:
         for _ in range(1 if tier == "quick" else 4):
